@@ -84,7 +84,7 @@ def rand_cases(rng):
                 out.append({'f': f, 'args': g})
         out.append({'f': 'LARGE', 'args': [arr(xs), enc(rng.randint(1, len(xs)))]})
     elif k <= 5:
-        n = rng.randint(2, 12)
+        n = rng.choice([1, rng.randint(2, 12), rng.randint(2, 12), rng.randint(2, 12)])   # one item: population forms are 0
         xs = [rnum(rng, True) for _ in range(n)]
         if rng.random() < 0.4:       # a large mean with a small spread, or all items equal: where one-pass formulas cancel
             base = rng.randint(-2990, 2990)
@@ -202,6 +202,23 @@ def main(tier, replay=None):
     so = suite.observations({'SUM','PRODUCT','AVERAGE','MIN','MAX','COUNT','MEDIAN','MODE','MODE.SNGL','VAR','VAR.S','VARP','VAR.P','AVEDEV','HARMEAN','LARGE','SLOPE','SUMIF','COUNTIF','AVERAGEIF','SUMIFS','AVERAGEIFS','MAXIFS'}, len(obs) + 1)   # the same functions as the repository's own tests call them
     run.extra['calls_from_repository_tests'] = len(so)
     obs += so
+    # one host list used more than once in a call (a variable named twice, twice inside an array literal)
+    ndup = 0
+    for _ in range(120 if quick else 5000):
+        xs = [rnum(rng) for _ in range(rng.randint(1, 8))]
+        env = F.empty_env()
+        env['vars'] = {'xs': arr(xs), 'ys': arr([arr(xs[:1]), arr(xs[1:])]) if len(xs) > 1 else arr(xs)}
+        f = rng.choice(['SUM', 'COUNT', 'AVERAGE', 'MEDIAN', 'MAX', 'MIN', 'PRODUCT', 'VARP', 'AVEDEV'])
+        X, Y = F.var('xs'), F.var('ys')
+        for ast in (F.call(f, X, X), F.call(f, X, F.num('7'), X), F.call(f, F.arr(X, X)), F.call(f, Y, X, Y)):
+            h = F.Harnessed(lib, env)
+            text = F.render(ast)
+            o = h.parse(text)
+            o.update({'id': len(obs) + 1, 'ast': ast, 'env': env, 'formula': text, 'checks': ['value'],
+                      'in': {'formula': text, 'vars': env['vars']}})
+            obs.append(o)
+            ndup += 1
+    run.extra['calls_naming_one_host_list_twice'] = ndup
     for a, env, want in relation_obs(lib, rng, 150 if quick else 4000):
         h = F.Harnessed(lib, env)
         text = F.render(a)
